@@ -61,7 +61,8 @@ def ammoModel (fmt : String) (pre : Bool) (data : Bytes) : Option String :=
   | some a, some b =>
     if a != b then none
     else if !(a.entries.all fun e => fmt == "raw" || safeUri e.uri) then none
-    -- an unterminated last line is dropped by the size-prefixed decoders (C07's subject): not predicted here
+    -- an unterminated non-blank last line is dropped by the raw decoder (C07's subject): not predicted here
+    -- (the uripost decoder decodes it, and the model follows: its `rest` is always empty)
     else if fmt != "uri" && a.end_ == .ok && !(trimSpace a.rest).isEmpty then none
     else if fmt == "uri" && data.length ≥ 65536 then none
     else
